@@ -68,11 +68,11 @@ META = {
               "simulations built through the public builder API whose builder answers, module vector, full callback log and parent/child/path lookups are compared with the "
               "model and the declared-tree specification; parent()/child() and the children maps agree with the declared tree (parents_agree_with_declared_tree, children_agree_with_declared_tree, "
               "children_map_is_declared_children, modules_are_the_declared_ones); Runtime::run over the kernel model Rt puts every at_sim_end call after all start stages and all events for any event set "
-              "and message schedule (sim_end_after_last_event, start_stages_before_events); gate paths and as_parent_str (gate_path, as_parent_str_appended)."),
+              "and message schedule (sim_end_after_last_event, start_stages_before_events); gate paths and as_parent_str (gate_path, as_parent_str_appended); every builder script refines the contract and rejected calls change nothing (script_refines_contract, rejected_declaration_changes_nothing); path <-> module is a bijection (path_node_bijection); no module precedes its parent and module states are dropped in pre-order, parents first, without cascading drops (parent_before_children, teardown_in_vector_order)."),
         design_ref="DESIGN.md §5 C12",
         note=("Trusted: Lean kernel; axioms propext/Classical.choice/Quot.sound; hand transcription Rust->Lean (UTF-8 strings as byte lists, ModuleRef as creation index, children HashMap as association list), "
               "validated by the correspondence runs; harness, driver, orchestrator. The run model takes the callbacks' add_event calls as parameters and assumes all modules stay active during start-up "
-              "(is_active guard, C09/C13). Paths with empty segments are outside the theorems' domain (model comparison only). Model mirrors /repo after the SimBuilderScoped fix."),
+              "(is_active guard, C09/C13). Compared per run only: SimTime values and handler order inside the event phase (kernel model Rt/FES), malformed paths with empty segments (e.g. node(\"a.\") is accepted by the code with an empty name - modelled, not claimed), the SimBuilderScoped::absolute route. Model mirrors /repo after the SimBuilderScoped fix."),
         technique=_T),
     "C17": dict(
         text=("Lean 4 theorems about the model of Cfg::new (compartmentalize_map loop with swap_remove/entry/insert on ordered mappings, recursion bound proved sufficient) and "
@@ -93,10 +93,11 @@ META = {
               "exactly the denoted modules, symbols and gate clusters (instantiate_modules_gates_exact). Tied to the code by replaying thousands of generated and "
               "mutated descriptions through the real FromStr/serde_yml/transform/nodes_from_ndl and comparing Ok/Err(kind,payload,span)/panic, the elaborated "
               "tree, and every module/gate/connection slot/channel metric with the model and with an independently written top-down denotation; "
-              "the built simulation equals the denotation of the tree in modules, gates, connection slots and channel metrics (instantiate_connections_exact); for descriptions without type arguments "
-              "transform equals the top-down denotation (transform_eq_denotation_partial, transform_sound_complete_partial); three error kinds are characterised at their origin (error_kinds_descriptive_partial)."),
+              "in the supported fragment transform succeeds with tree n iff the independent top-down denotation is n, and rejects iff the description denotes nothing (transform_iff_denotation, transform_rejects_iff_undefined, "
+              "incl. generic modules, type arguments with conformance, placeholders, inheritance, clusters, all connection forms and links, for every hash-map order); the built simulation equals the denotation in modules, symbols, "
+              "gates, connection slots and channel metrics (instantiate_connections_exact, transform_sound_complete); every rejection names a module/clause/symbol of the input that has the announced defect (error_kinds_descriptive)."),
         design_ref="DESIGN.md §5 C18",
-        note=("Models the code with the three F7 repairs applied. Not proved, checked per case only: transform = denotation for submodule types with type arguments G(C); the converse/error direction. Trusted: YAML layer, f64<->ms rendering, names without '.', "
+        note=("Models the code with the three F7 repairs applied. Not proved: equality of error kinds between transform and denotation on multiply-defective descriptions; real-cause witnesses for non-conformance and unknown gate/submodule; converse of instantiate = worldOf (false for dotted submodule names). Trusted: YAML layer, f64<->ms rendering, names without '.', "
               "hash-order-dependent descriptions compared weakly."),
         technique=_T),
     "C06": dict(
@@ -108,7 +109,7 @@ META = {
         design_ref="DESIGN.md §5 C06",
         note=("Partial: the scheduler model is an abstraction of tokio validated only by the tie. Acceptance is an executable abstract specification (Spec/ExecSpec.lean); several waiters per condition, notify_waiters, "
               "JoinHandle awaited by another task, timers through the inject queue and cross-module wakes (C06.foreign_wakes_wait_for_next_event: outside C06 as worded, polled at the module's next own event) are covered; "
-              "combinators with concurrent awaits inside one task (select!/join!/timeout), watch/broadcast/oneshot and the LocalSet remote queue are not. "
+              "combinators with concurrent awaits inside one task (select!/join!/timeout), watch/broadcast/oneshot and the LocalSet remote queue are not. Model-refines-specification theorem: spec_accepts_model_partial (hypothesis GoodRun, decidable, exemplified). "
               "Trusted: Lean kernel, standard axioms, harness, driver, orchestrator. The model mirrors /repo after the two C06 repairs (event_interval, drain loop in Harness::exec)."),
         technique=_T),
     "C08": dict(
@@ -188,12 +189,14 @@ META = {
               "interval_burst_ticks; lifted to the scripted simulation for all scripts (script_ops_admissible, sim_wakeinv_all_scripts, "
               "sim_ends_with_no_pending_timer); exactly-once and waker-level precision (fires_exactly_once, woken_only_when_due); for all scripts: termination of the scripted simulation on fuel computed from the state "
               "(sim_run_terminates, sim_event_lowers_fuel), independence of the order of events of different modules incl. final time (tie_order_irrelevant, sim_loop_is_interleaving, sim_clock_is_latest_event), completions never early "
-              "(sim_completions_not_early) and at the deadline given the sleep is not overdue (script_completions_at_deadline). Tied to the code by real des simulations running generated timer scripts whose every observation is compared "
+              "(sim_completions_not_early). For all scripts and whole simulations: every completion of sleep / sleep_until / timeout delays is observed at max(deadline, first poll) (sim_completions_at_deadline, via the registration invariant "
+              "sim_registered_timers_have_entries: unique sleep ids, every awaited Sleep has its queue entry), and the simulation does not end while a task awaits a deadline below SimTime::MAX (sim_ends_with_no_task_waiting). "
+              "Waker path: deactivate_schedules_rule, wakeup_pending_for_earliest_live, stale_wakeup_is_harmless, wake_order_is_registration_order. Tied to the code by real des simulations running generated timer scripts whose every observation is compared "
               "with the Lean model run. Found and repaired F3 (TimerQueue::next ignored live slots behind an emptied front slot); witnesses "
               "orig_next_*_witness keep the pre-repair function refuted."),
         design_ref="DESIGN.md §5 C05, §6 F3",
         note=("Trusted/partial: tokio waker plumbing (a woken task is re-polled in the same event, C06); event-set time order (C01/C03) as hypothesis EvOk/Consistent of the op-level theorems; Weak<TimerSlot> handle = slot deadline; "
-              "script-level not-late is conditional on OwnOk and otherwise checked per model run by the driver; never-lost clause for deadlines < SimTime::MAX; select! modelled biased; overflow out of scope."),
+              "script-level exact completion is proved for sleeps owned by the awaiting future; for awaited named Sleeps / interval ticks only never-early and never-lost are script-level theorems; never-lost clause for deadlines < SimTime::MAX; select! modelled biased; overflow out of scope."),
         technique=_T),
     "C20": dict(
         text=("Lean 4 theorems about a typed ownership graph of a stopped des simulation (Runtime/Sim, Profiler, Globals, ModuleTree, ctx/processor/state/PE, async ext, tokio rt, task cell/state, mpsc, driver, TimerQueue/Slot, gates with connection slots, channels, probes, buffer entries, messages, bodies, queued/event connections, event entries in FES / Profiler.remaining / BUF_CTX) "
@@ -231,12 +234,13 @@ META = {
               "drops losing sleeps, senders resolved BY id) and randomness is an explicit stream consumed in dispatch order (tokio RngSeed per module, random(), channel jitter, "
               "select! start index per poll): the whole run under ambient a is the id-renaming of the canonical run at every step (C04.states_related_by_renaming), hence trace, "
               "time, event count, result are ambient-independent (C04.run_ambient_independent / trace_ambient_independent), a second simulation does not see the counters the first "
-              "left behind (C04.second_run_independent_of_first), the stream is consumed from the front only and draw order is ambient-independent, dispatch = FES.fetch. Tied to the code "
+              "left behind (C04.second_run_independent_of_first), a simulation built on an ARBITRARY leftover of the previous one (unflushed at_sim_end emissions in BUF_CTX, clock, RNG, MOD_CTX, id counters) behaves as if "
+              "run alone (C04.second_run_independent_of_leftovers, leftovers_are_reset; decide'd witness that it fails if buf_drop kept the buffer); channels with bitrate/queue, send_in and semaphore hand-offs between tasks are modelled; the stream is consumed from the front only and draw order is ambient-independent, dispatch = FES.fetch. Tied to the code "
               "by executing every generated (model, seed) four times (twice back to back, after a noise simulation, in a child process), comparing the canonical traces, and replaying the model on the recorded stream; "
               "modules may shut down and restart: the seed of every incarnation's tokio runtime is an element of the stream (C04.restart_seed_from_stream, restart_seed_is_next_draw)."),
         design_ref="DESIGN.md §5 C04",
         note=("Partial: StdRng / tokio FastRand are inputs (equal seeds => equal streams is checked only by the four real executions); tokio 1.45.1 current-thread scheduling order is a hand transcription "
-              "validated by the correspondence runs; receives, LocalSet, busy channels, panics not generated. Trusted: Lean kernel; axioms propext/Quot.sound; harness, driver parser, orchestrator. "
+              "validated by the correspondence runs; mpsc receives, LocalSet tasks, Drop/bounded channel policies, panics not generated. Trusted: Lean kernel; axioms propext/Quot.sound; harness, driver parser, orchestrator. "
               "Open finding F-C04a: tokio drops unfinished tasks in an order that depends on the process-global task-id counter. Model mirrors /repo after fixes F-C04b (build-time clock) and F-C04c (ModuleId::NULL after wrap)."),
         technique=_T),
 }
